@@ -89,6 +89,11 @@ def corpus():
         c['m1121:5010'] = mini(1, 1, 2, 1, '00501')
         for q in ('shapes', 'hl2', 'dupst', 'se2', 'noiea'):
             c['m1122:' + q] = mini(1, 1, 2, 2, quirk=q)
+        # an interchange without any functional group (a TA1-only acknowledgement, IEA*0) next to a grouped one
+        lone = ref.isa('00401', ctl='000000007') + 'TA1*000000001*040608*1333*A*000~' + 'IEA*0*000000007~'
+        c['m1111+nogs'] = mini(1, 1, 1, 1) + lone
+        c['nogs+m1211'] = lone + mini(1, 2, 1, 1)
+        c['m2111+nogs'] = mini(2, 1, 1, 1).replace('000000002', '000000003') + lone
         from pyx12.test.x12testdata import datafiles
         for k in sorted(datafiles):
             if 'source' in datafiles[k]:
@@ -551,7 +556,7 @@ def run(R):
     shards.sort(key=lambda s: (weight[s[4]], -len(corpus()[s[0]])))
     R.pmap(work, shards)
     c = corpus()
-    R.bounds = {'documents': '%d hand-built minimal interchanges + %d suite sources, each as shipped and with reference-correct counts'
+    R.bounds = {'documents': '%d hand-built minimal interchanges (incl. 3 with a group-less TA1-only interchange) + %d suite sources, each as shipped and with reference-correct counts'
                              % (sum(1 for n in c if n.startswith('m')), sum(1 for n in c if n.startswith('s:'))),
                 'layouts': list(LAYOUTS), 'foreign delimiter triples': [list(d) for d in (FOREIGN_T if R.thorough else FOREIGN_Q)],
                 'defects': 'IEA01/GE01/SE01/HL01 in {true+1,true-1,x,empty,zero-padded} at every trailer/HL singly; HL01 of every set shifted/reversed/adjacent-swapped; '
